@@ -330,9 +330,79 @@ pub fn rare_case(c: &Case, obs: &mut Obs) -> PResult {
     Ok(())
 }
 
+/// Huge populations with a *balanced* outcome (k (n - k) beyond 2^64): coverage at p summed over the window of
+/// outcomes within 7 standard deviations of n p (the rest carries less than 1e-11 of the mass).
+#[derive(Clone, Debug, Serialize, Deserialize)]
+pub struct BalancedCase {
+    pub n: u64,
+    pub p: crate::fl::X,
+    pub conf: Conf,
+}
+pub fn balanced_case(c: &BalancedCase, obs: &mut Obs) -> PResult {
+    let (n, p) = (c.n, c.p.0);
+    let level = c.conf.l();
+    let kn = c.conf.kind_name();
+    let conf = c.conf.get();
+    let nf = n as f64;
+    let sd = (nf * p * (1.0 - p)).sqrt();
+    let k0 = (nf * p - 7.0 * sd).floor().max(0.0) as u64;
+    let k1 = ((nf * p + 7.0 * sd).ceil() as u64).min(n);
+    let len = (k1 - k0 + 1) as usize;
+    // pmf over the window by the recurrence from the mode, normalised over the window
+    let mut w = vec![0.0f64; len];
+    let mode = (((n + 1) as f64) * p).floor().clamp(k0 as f64, k1 as f64) as u64;
+    let r = p / (1.0 - p);
+    w[(mode - k0) as usize] = 1.0;
+    for k in mode..k1 {
+        w[(k + 1 - k0) as usize] = w[(k - k0) as usize] * ((n - k) as f64 / (k + 1) as f64) * r;
+    }
+    for k in (k0 + 1..=mode).rev() {
+        w[(k - 1 - k0) as usize] = w[(k - k0) as usize] * (k as f64 / (n - k + 1) as f64) / r;
+    }
+    let total: f64 = w.iter().sum();
+    let z = crate::meanref::crit_z(&c.conf).c;
+    let (mut cov, mut refcov) = (0.0f64, 0.0f64);
+    for (i, wk) in w.iter().enumerate() {
+        let k = k0 + i as u64;
+        let inside = match call(|| proportion::ci(conf, n as usize, k as usize)) {
+            Out::Ok(Interval::TwoSided(a, b)) => a <= p && p <= b,
+            Out::Ok(other) => return crate::engine::fail("C12/proportion/kind", format!("ci({:?}, {n}, {k}) = {other:?}", c.conf)),
+            Out::Err(_) => false,
+            Out::Panic(pp) => return crate::engine::fail("C12/proportion/panic", format!("ci({:?}, {n}, {k}) panicked: {pp}", c.conf)),
+        };
+        if inside {
+            cov += wk;
+        }
+        // the mathematical construction, in f64 with the products formed in floating point
+        let (kf, ff) = (k as f64, (n - k) as f64);
+        let z2 = z * z;
+        let center = (kf + z2 / 2.0) / (nf + z2);
+        let span = z / (nf + z2) * (kf * ff / nf + z2 / 4.0).sqrt();
+        let (a, b) = match c.conf.kind {
+            0 => (center - span.abs(), center + span.abs()),
+            1 => (center - span, 1.0),
+            _ => (0.0, center + span),
+        };
+        if a <= p && p <= b {
+            refcov += wk;
+        }
+    }
+    obs.evals(len as u64);
+    let (cov, refcov) = (cov / total, refcov / total);
+    let floor = level - prop_min_slack(level);
+    ensure!(cov >= floor, format!("C12/proportion_balanced/min_coverage/{kn}"), "n={n}, p={p}, {:?}: coverage {cov:.6} is below the documented floor {floor:.4}", c.conf);
+    ensure!((cov - refcov).abs() <= 0.01, format!("C12/proportion_balanced/vs_construction/{kn}"), "n={n}, p={p}, {:?}: coverage {cov:.6}; the exact Wilson construction covers with probability {refcov:.6}", c.conf);
+    obs.class("proportion_balanced");
+    obs.nontrivial(&("balanced", n, p.to_bits(), c.conf.kind, level.to_bits()));
+    if obs.wants_sample("balanced") {
+        obs.sample("balanced", || json!({"n": n, "p": p, "conf": c.conf, "outcomes_summed": len, "coverage": cov, "construction": refcov}));
+    }
+    Ok(())
+}
+
 pub fn run(run: &mut Run) {
     run.technique = "enumeration of a parameter grid with the coverage probability summed exactly over all binomial outcomes (own pmf) — generated-input search against documented slack laws".into();
-    run.rule = "n on a grid (quick {25,50,100,200,400,1000,1500,2500}; thorough every n in 21..=600 and 150 values to 5000) x levels {0.8,0.9,0.95,0.99} x 3 kinds; proportion: intervals for all k, coverage at 801 values of p in [10/n,1-10/n]; quantile: ranks from ci_indices at 397 values of q with n q >= 10 and n (1-q) >= 10; rare events: n in {20001 … 10^12} (thorough: 78 values from 6000 to 10^13) with n p resp. n (1-p) on 381 points in [10, 200], outcomes summed over the window that carries all but 1e-25 of the mass; non-trivial = (n, level, kind, p or q) with coverage strictly inside (0.001, 0.9999), i.e. mass on both sides of a bound; enumerated once each".into();
+    run.rule = "n on a grid (quick {25,50,100,200,400,1000,1500,2500}; thorough every n in 21..=600 and 150 values to 5000) x levels {0.8,0.9,0.95,0.99} x 3 kinds; proportion: intervals for all k, coverage at 801 values of p in [10/n,1-10/n]; quantile: ranks from ci_indices at 397 values of q with n q >= 10 and n (1-q) >= 10; rare events: n in {20001 … 10^12} (thorough: 78 values from 6000 to 10^13) with n p resp. n (1-p) on 381 points in [10, 200], outcomes summed over the window that carries all but 1e-25 of the mass; balanced outcomes on populations of 2^34 (thorough: 2^33 … 2^40), coverage at p in {0.5, 0.3} summed over the outcomes within 7 standard deviations; non-trivial = (n, level, kind, p or q) with coverage strictly inside (0.001, 0.9999), i.e. mass on both sides of a bound; enumerated once each".into();
     crate::meanref::selftest_into(run);
     let ns: Vec<u64> = match run.tier {
         crate::engine::Tier::Quick => vec![25, 50, 100, 200, 400, 1000, 1500, 2500],
@@ -390,6 +460,23 @@ pub fn run(run: &mut Run) {
         let (n, conf) = rj[j];
         crate::engine::case_on(obs, "rare", &Case { n, conf }, rare_case);
     });
+    // balanced outcomes on populations beyond 2^33 (k (n - k) exceeds 2^64)
+    {
+        let ns: Vec<u64> = run.tier.pick(vec![1u64 << 34], vec![(1u64 << 33) + 1, 1u64 << 34, (1u64 << 36) + 12345, 1u64 << 40]);
+        let mut jobs = vec![];
+        for &n in &ns {
+            for p in [0.5, 0.3] {
+                for (kind, l) in [(0u8, 0.95), (1, 0.9), (2, 0.8)] {
+                    jobs.push(BalancedCase { n, p: crate::fl::X(p), conf: Conf::new(kind, l) });
+                }
+            }
+        }
+        let jr = &jobs;
+        run.par(jobs.len(), |j, obs| {
+            crate::engine::case_on(obs, "balanced", &jr[j], balanced_case);
+        });
+        run.require_class("proportion_balanced");
+    }
     run.exhaustive = false;
     for k in ["two", "upper", "lower"] {
         run.require_class(&format!("proportion_rare/rare/{k}"));
@@ -411,6 +498,7 @@ pub fn replay(sub: &str, v: &Value, obs: &mut Obs) -> Option<PResult> {
         "proportion" => proportion_case(&de(v), obs),
         "quantile" => quantile_case(&de(v), obs),
         "rare" => rare_case(&de(v), obs),
+        "balanced" => balanced_case(&de(v), obs),
         _ => return None,
     })
 }
